@@ -9,6 +9,7 @@ import (
 	"context"
 
 	eth2api "github.com/attestantio/go-eth2-client/api"
+	"github.com/attestantio/go-eth2-client/spec/altair"
 	eth2p0 "github.com/attestantio/go-eth2-client/spec/phase0"
 
 	"github.com/obolnetwork/charon/app/eth2wrap"
@@ -23,6 +24,7 @@ import (
 var VerifHarnesses = map[string]func(){
 	"VerifC10Peer":   VerifC10Peer,
 	"VerifC10Randao": VerifC10Randao,
+	"VerifC10Sync":   VerifC10Sync,
 }
 
 // ideal BLS: a signature token is [1, key id, first 8 bytes of the signed data]; Verify accepts exactly that.
@@ -72,6 +74,7 @@ func (vClient) GenesisDomain(_ context.Context, dt eth2p0.DomainType) (eth2p0.Do
 type vE2 struct {
 	Content byte
 	Ep      uint64
+	EpErr   bool // the epoch lookup fails (e.g. a beacon node request failed)
 	Dom     signing.DomainName
 	Sig     [12]byte
 }
@@ -91,6 +94,9 @@ func (d vE2) Clone() (core.SignedData, error) { return d, nil }
 func (d vE2) MarshalJSON() ([]byte, error)    { return []byte{'"', d.Content, '"'}, nil }
 func (d vE2) DomainName() signing.DomainName  { return d.Dom }
 func (d vE2) Epoch(context.Context, eth2wrap.Client) (eth2p0.Epoch, error) {
+	if d.EpErr {
+		return 0, context.Canceled
+	}
 	return eth2p0.Epoch(d.Ep), nil
 }
 
@@ -167,7 +173,27 @@ func VerifC10Peer() {
 	for i := 0; i < 8; i++ {
 		sig[2+i] = signedData[i]
 	}
-	vSet = core.ParSignedDataSet{pk: core.ParSignedData{SignedData: vE2{Content: content, Ep: epoch, Dom: dom, Sig: sig}, ShareIdx: shareIdx}}
+	epErr := vrt.Bool("epochLookupFails")
+	vSet = core.ParSignedDataSet{pk: core.ParSignedData{SignedData: vE2{Content: content, Ep: epoch, EpErr: epErr, Dom: dom, Sig: sig}, ShareIdx: shareIdx}}
+	// optionally a second entry (another validator) that is valid or carries a garbage signature
+	second := vrt.Param("second")
+	secondValid := true
+	if second == 1 {
+		vrt.Assume(which%3 == 0) // first entry is validator A, second is validator B
+		secondValid = vrt.Bool("secondValid")
+		var r2 eth2p0.Root
+		r2[0] = 7
+		sd2, _ := signing.GetDataRoot(context.Background(), cl, signing.DomainRandao, 0, r2)
+		var sig2 [12]byte
+		sig2[1] = 21 // B's share 1
+		if secondValid {
+			sig2[0] = 1
+		}
+		for i := 0; i < 8; i++ {
+			sig2[2+i] = sd2[i]
+		}
+		vSet[vPkB] = core.ParSignedData{SignedData: vE2{Content: 7, Ep: 0, Dom: signing.DomainRandao, Sig: sig2}, ShareIdx: 1}
+	}
 	_, _, errH := ex.handle(context.Background(), "", &pbv1.ParSigExMsg{Duty: &pbv1.Duty{Slot: slot, Type: int32(core.DutyAttester)}, DataSet: &pbv1.ParSignedDataSet{}})
 	// oracle
 	known := which%3 != 2
@@ -177,7 +203,7 @@ func VerifC10Peer() {
 		wantKey = byte(10*(int(which%3)+1) + shareIdx)
 	}
 	sameFork := (epoch >= 100) == (sEpoch >= 100)
-	valid := slot < 200 && known && inLock && sig[0] == 1 && sKey == wantKey && sContent == content && sDom == dom && (sameFork || dom == "")
+	valid := slot < 200 && known && inLock && sig[0] == 1 && sKey == wantKey && sContent == content && sDom == dom && sameFork && !epErr && secondValid
 	vrt.Assert("a partial signature is admitted exactly when it verifies for the object's own root, domain and epoch under the claimed share's public key, for an allowed duty",
 		(errH == nil) == valid)
 	vrt.Assert("subscribers see the set exactly when it was admitted", (delivered == 1) == (errH == nil) && delivered <= 1)
@@ -253,6 +279,113 @@ func VerifC10Randao() {
 	sameFork := (epoch >= 100) == (sForkEpoch >= 100)
 	valid := slot < 200 && known && inLock && sig[0] == 1 && sKey == wantKey && sEpoch == epoch && sameFork
 	vrt.Assert("a partial randao signature is admitted exactly when it verifies for the object's own epoch and fork under the claimed share's public key, for an allowed duty",
+		(errH == nil) == valid)
+	vrt.Assert("subscribers see the set exactly when it was admitted", (delivered == 1) == (errH == nil) && delivered <= 1)
+	if errH == nil {
+		vrt.Reach("admitted")
+	}
+	vrt.Reach("end")
+}
+
+// vClient2: like vClient plus SLOTS_PER_EPOCH, a sync-committee domain, and a Spec call that can fail once.
+type vClient2 struct {
+	eth2wrap.Client
+	failFirst bool
+	calls     int
+}
+
+func (c *vClient2) Spec(context.Context, *eth2api.SpecOpts) (*eth2api.Response[map[string]any], error) {
+	c.calls++
+	if c.failFirst && c.calls == 1 {
+		return nil, context.Canceled
+	}
+	return &eth2api.Response[map[string]any]{Data: map[string]any{
+		"SLOTS_PER_EPOCH":                   uint64(4),
+		string(signing.DomainSyncCommittee): eth2p0.DomainType{7, 0, 0, 0},
+	}}, nil
+}
+
+func (c *vClient2) Domain(_ context.Context, dt eth2p0.DomainType, epoch eth2p0.Epoch) (eth2p0.Domain, error) {
+	var d eth2p0.Domain
+	d[0] = dt[0]
+	if epoch >= 20 { // fork
+		d[4] = 1
+	}
+	return d, nil
+}
+
+func (c *vClient2) GenesisDomain(_ context.Context, dt eth2p0.DomainType) (eth2p0.Domain, error) {
+	var d eth2p0.Domain
+	d[0] = dt[0]
+	return d, nil
+}
+
+// VerifC10Sync: real core.SignedSyncMessage objects (slot-based epoch lookup through the beacon client, which may fail
+// once), one or two validators in the peer set; replays natively through the real wire decoding.
+func VerifC10Sync() {
+	tbls.SetImplementation(vIdealBLS{})
+	n := 4
+	shares := map[core.PubKey]map[int]tbls.PublicKey{}
+	for v, pk := range []core.PubKey{vPkA, vPkB} {
+		shares[pk] = map[int]tbls.PublicKey{}
+		for i := 1; i <= n; i++ {
+			var p tbls.PublicKey
+			p[0] = byte(10*(v+1) + i)
+			shares[pk][i] = p
+		}
+	}
+	cl := &vClient2{failFirst: vrt.Bool("firstSpecCallFails")}
+	ref := &vClient2{}
+	verify, err := NewEth2Verifier(cl, shares)
+	vrt.Assert("verifier constructed", err == nil)
+	delivered := 0
+	ex := &ParSigEx{
+		verifyFunc: verify,
+		gaterFunc:  func(d core.Duty) bool { return d.Slot < 200 },
+		subs: []func(context.Context, core.Duty, core.ParSignedDataSet) error{func(context.Context, core.Duty, core.ParSignedDataSet) error {
+			delivered++
+			return nil
+		}},
+	}
+	mk := func(name string, key byte) (core.ParSignedData, bool) {
+		slot := uint64(vrt.Byte(name + "_slot"))
+		content := vrt.Byte(name + "_content")
+		sContent, sEpoch := vrt.Byte(name+"_signContent"), uint64(vrt.Byte(name+"_signEpoch"))
+		sKey := vrt.Byte(name + "_signKey")
+		var sRoot eth2p0.Root
+		sRoot[0] = sContent
+		sd, errD := signing.GetDataRoot(context.Background(), ref, signing.DomainSyncCommittee, eth2p0.Epoch(sEpoch), sRoot)
+		vrt.Assert("signing root computable", errD == nil)
+		var sig eth2p0.BLSSignature
+		sig[0], sig[1] = vrt.Byte(name+"_sigKind"), sKey
+		for i := 0; i < 8; i++ {
+			sig[2+i] = sd[i]
+		}
+		var root eth2p0.Root
+		root[0] = content
+		msg := &altair.SyncCommitteeMessage{Slot: eth2p0.Slot(slot), BeaconBlockRoot: root, ValidatorIndex: 1, Signature: sig}
+		sameFork := (slot/4 >= 20) == (sEpoch >= 20)
+		return core.NewPartialSignedSyncMessage(msg, 2), sig[0] == 1 && sKey == key && sContent == content && sameFork
+	}
+	pa, validA := mk("a", 12) // validator A, share 2
+	vSet = core.ParSignedDataSet{vPkA: pa}
+	validB := true
+	if vrt.Param("second") == 1 {
+		var pb core.ParSignedData
+		pb, validB = mk("b", 22) // validator B, share 2
+		vSet[vPkB] = pb
+	}
+	ds := &pbv1.ParSignedDataSet{}
+	if !vrt.Symbolic() {
+		var errP error
+		ds, errP = core.ParSignedDataSetToProto(vSet)
+		if errP != nil {
+			panic(errP)
+		}
+	}
+	_, _, errH := ex.handle(context.Background(), "", &pbv1.ParSigExMsg{Duty: &pbv1.Duty{Slot: 5, Type: int32(core.DutySyncMessage)}, DataSet: ds})
+	valid := validA && validB && !cl.failFirst
+	vrt.Assert("a peer set is admitted exactly when every partial signature verifies for its object's own root, domain and epoch under the claimed share's key and the epoch lookup succeeded",
 		(errH == nil) == valid)
 	vrt.Assert("subscribers see the set exactly when it was admitted", (delivered == 1) == (errH == nil) && delivered <= 1)
 	if errH == nil {
